@@ -58,6 +58,12 @@ def run():
     with mp.Pool(16) as pool:
         n1 = sum(pool.map(drv.run_plan, jobs))
         n2 = sum(pool.map(drv.plain_calls, [(f"c08plain{i}", c["plain"] // 16, os.path.join(d, f"q{i:02d}.ndjson"), (100 + i) * 1_000_000) for i in range(16)]))
+    from ..drivers import functional as fdrv
+    allcls = ["Cuboid", "Cylinder", "CylinderSegment", "Sphere", "Tetrahedron", "Triangle", "TriangularMesh", "Circle", "Polyline", "Dipole"]
+    reps = 1 if tier() == "quick" else 6
+    with mp.Pool(10) as pool:
+        n2 += sum(pool.map(fdrv.caller_array_events, [([cl], os.path.join(d, f"c{i:02d}_{k}.ndjson"), (400 + 10 * k + i) * 1_000_000, f"c08arr{cl}{k}")
+                                                      for i, cl in enumerate(allcls) for k in range(reps)]))
     # FieldWrap scenarios: objects untouched by ordinary calls
     res2, st2 = tlc.dump_states("MC_FieldWrap", c["fwcfg"], name="c08_fw")
     tlc.require_ok(res2)
